@@ -1,4 +1,5 @@
 import Yuiv.Proofs.C15Quad
+import Yuiv.Proofs.C15Field
 /-
 C15 — Euclidean-domain operations: property theorems (about the code model `Yuiv/Model/C15.lean`).
 
@@ -11,7 +12,9 @@ C15 — Euclidean-domain operations: property theorems (about the code model `Yu
 * `LawfulEuc` holds for the models of Z, Z[i] (4 units, quadrant table) and Z[ω] (6 units, sextant table);
 * units: `is_unit a ↔ inv a ≠ none`, `inv a = some u → a·u = 1` for Z, Z[i], Z[ω], F_p (p = 2,3,5,7);
 * F_p (p = 2,3,5,7): all of the above by exhaustive evaluation of the model.
-Not proved here (checked by the differential run only): Q, F[x], homogeneous polynomials (see props/C15.json).
+* Q (canonical fractions): units, inverse, normalisation, gcd.
+Not proved here (checked by the differential run only): Bezout/lcm in Q, F[x], homogeneous polynomials
+(see props/C15.json).
 -/
 namespace Yuiv.C15
 open Yuiv
@@ -175,6 +178,32 @@ end generic
 un-normalised early return (F4) — is `2` -/
 example : gaussOps.gcd ⟨-2, 0⟩ ⟨4, 0⟩ = .ok ⟨2, 0⟩ ∧ gaussOps.gcdx ⟨11, 3⟩ ⟨1, 8⟩ = .ok (⟨2, 1⟩, ⟨1, 2⟩, ⟨-3, 0⟩) := by
   decide +kernel
+
+/-! ### Q (canonical fractions `num/den`, `den > 0`, lowest terms — the form `Ratio::new` produces) -/
+
+/-- the constructor and the product produce canonical fractions -/
+theorem rat_canonical (n d : Int) (hd : d ≠ 0) (x u : Q) (hx : Q.WF x) (hu : Q.WF u) :
+    Q.WF (Q.make n d) ∧ Q.WF (Q.mul x u) := ⟨Q.make_wf n d hd, Q.mul_wf x u hx hu⟩
+
+/-- `is_unit a ↔ inv a ≠ none`, `inv a = some u → a·u = 1` -/
+theorem rat_units (x : Q) (hx : Q.WF x) :
+    (Q.isUnit x = true ↔ Q.inv x ≠ none) ∧ (∀ u, Q.inv x = some u → Q.mul x u = Q.one) :=
+  ⟨Q.isUnit_iff x, Q.inv_mul x hx⟩
+
+/-- normalisation maps every non-zero element to `1`; hence idempotent and constant on associates -/
+theorem rat_normalized (x u : Q) (hx : Q.WF x) (hu : Q.WF u) (hu0 : u.num ≠ 0) :
+    ratOps.normalized x = (if x.num = 0 then x else Q.one) ∧
+    ratOps.normalized (ratOps.normalized x) = ratOps.normalized x ∧
+    ratOps.normalized (ratOps.mul x u) = ratOps.normalized x :=
+  ⟨Q.normalized_eq x hx, Q.normalized_idem x hx, Q.normalized_assoc x u hx hu hu0⟩
+
+/-- over a field the generic `gcd` takes an early return; the result is the normalised `1` (after fix F4),
+`0` only for `gcd(0,0)` -/
+theorem rat_gcd (x y : Q) (hx : Q.WF x) (hy : Q.WF y) :
+    ratOps.gcd x y = .ok (if x.num = 0 ∧ y.num = 0 then Q.zero else Q.one) := Q.gcd_eq x y hx hy
+
+example : Q.WF (Q.make 4 (-6)) ∧ Q.make 4 (-6) = ⟨-2, 3⟩ ∧ ratOps.gcd ⟨2, 3⟩ ⟨5, 1⟩ = .ok ⟨1, 1⟩ := by
+  refine ⟨Q.make_wf 4 (-6) (by decide), by decide, by decide⟩
 
 /-! ### F_p, p = 2, 3, 5, 7 (exhaustive) -/
 
